@@ -439,6 +439,26 @@ example : newline charCC [13, 10, 97] 0 = some 2 := by decide
 example : padded charCC (int charCC 10) [32, 49, 50, 32, 10] 0 = some (1, 3, 5) := by decide
 example : whitespace u8CC [11, 32] 0 = some 2 := by decide               -- vertical tab (the repaired D11)
 
+/-- **bounded whitespace counts characters** (`whitespace()` / `inline_whitespace()` return a `Repeated`, so `.at_least(lo)`,
+    `.at_most(hi)`, `.exactly(n)` apply to single characters): the match takes `min hi (length of the run)` characters and
+    exists iff that is at least `lo` — a run is never treated as one item -/
+theorem c14_whitespace_bounded (cc : CC) (lo hi : Nat) (toks : List Nat) (pos : Nat) :
+    whitespaceB cc lo hi toks pos =
+      if lo ≤ min hi (runLen cc.isWs (toks.drop pos)) then some (pos + min hi (runLen cc.isWs (toks.drop pos))) else none :=
+  boundedRun_eq cc.isWs lo hi toks pos
+
+theorem c14_inline_whitespace_bounded (cc : CC) (lo hi : Nat) (toks : List Nat) (pos : Nat) :
+    inlineWhitespaceB cc lo hi toks pos =
+      if lo ≤ min hi (runLen cc.isInlineWs (toks.drop pos)) then some (pos + min hi (runLen cc.isInlineWs (toks.drop pos)))
+      else none :=
+  boundedRun_eq cc.isInlineWs lo hi toks pos
+
+/-- e.g. `whitespace().at_least(2)` accepts two spaces, `whitespace().exactly(3)` takes three of four -/
+example : whitespaceB charCC 2 1000 [32, 32] 0 = some 2 ∧ whitespaceB charCC 3 3 [32, 9, 32, 32] 0 = some 3 ∧
+    whitespaceB charCC 2 1000 [32, 97] 0 = none := by decide
+
+#print axioms c14_whitespace_bounded
+#print axioms c14_inline_whitespace_bounded
 #print axioms c14_whitespace_run
 #print axioms c14_whitespace_accepts
 #print axioms c14_inline_whitespace_accepts
